@@ -315,6 +315,34 @@ static std::string handle(const std::string& cmd, const std::string& args) {
     if (table == 1) return fft_oracle<C4322<float>>(sg, rng, natoms, aniso);
     return fft_oracle<Neutron92<float>>(sg, rng, natoms, aniso);
   }
+  if (cmd == "o_charge") {
+    // two ions of one element with different tabulated charges: the form factor of each must be its own
+    Structure st = make_structure(sg, rng, 2, false, false, 1.0);
+    int k = 0;
+    for (Residue& res : st.models[0].chains[0].residues)
+      for (Atom& at : res.atoms) {
+        at.element = Element(El::Fe);
+        at.charge = (signed char) (k++ == 0 ? 2 : 3);
+        at.occ = 1.0f;
+      }
+    IT92<double>::ignore_charge = false;
+    GroupOps gops = sg.operations();
+    StructureFactorCalculator<IT92<double>> calc(st.cell);
+    std::string r = "ok";
+    for (int h = 0; h <= 3 && r == "ok"; ++h)
+      for (int kk = -2; kk <= 2 && r == "ok"; ++kk)
+        for (int l = -2; l <= 2; ++l) {
+          Miller m = {{h, kk, l}};
+          std::complex<double> v = calc.calculate_sf_from_model(st.models[0], m);
+          lcplx want = textbook<IT92<double>>(st, gops, m);
+          if (std::abs(lcplx(v.real(), v.imag()) - want) > 1e-8L * (1 + std::abs(want))) {
+            r = "bad form factor of the second ion (cache keyed by element only?) at " + hs(m);
+            break;
+          }
+        }
+    IT92<double>::ignore_charge = true;
+    return r;
+  }
   if (cmd == "o_small") return small_oracle(sg, rng, (int) to_ll(w.at(2)), (int) to_ll(w.at(3)));
   return "UNKNOWN";
 }
